@@ -486,6 +486,17 @@ impl<S: Scheme> Instance<S> {
 /// Build keys, `npoly` labelled polynomials (structured kinds) and their commitments.
 pub fn instance<S: Scheme>(rng: &mut Rng, thorough: bool, npoly: usize) -> Result<Instance<S>, String> {
     let sizes = S::sizes(rng, thorough);
+    instance_sized::<S>(rng, sizes, npoly)
+}
+
+/// keys trimmed to the FULL degree of the parameters (`supported == max_degree`)
+pub fn instance_full<S: Scheme>(rng: &mut Rng, thorough: bool, npoly: usize) -> Result<Instance<S>, String> {
+    let mut sizes = S::sizes(rng, thorough);
+    sizes.supported = sizes.max_degree;
+    instance_sized::<S>(rng, sizes, npoly)
+}
+
+pub fn instance_sized<S: Scheme>(rng: &mut Rng, sizes: Sizes, npoly: usize) -> Result<Instance<S>, String> {
     let pp = S::PC::setup(sizes.max_degree, sizes.num_vars, rng).map_err(|e| format!("setup: {:?}", e))?;
     let mut polys = vec![];
     let mut kinds = vec![];
